@@ -1031,15 +1031,17 @@ TrRet ==
   /\ IsEv("ret")
   /\ misc' = [misc EXCEPT !.calls = [c \in DOMAIN @ \ {E.cid} |-> @[c]]]
   /\ LET lastInj == IF E.ep \in DOMAIN misc.inj THEN misc.inj[E.ep] ELSE [t |-> -1, kind |-> "none"]
+         \* a call made after the injection (the re-polling readers) is measured from its own start
+         from == MaxI(lastInj.t, IF E.cid \in DOMAIN misc.calls THEN misc.calls[E.cid].t ELSE -1)
      IN viol' = viol
-          \cup (IF lastInj.t >= 0 /\ E.t > lastInj.t + PromptBound THEN {V("C09_Prompt", <<E.ep, E.op, E.t - lastInj.t, lastInj.kind>>)} ELSE {})
+          \cup (IF lastInj.t >= 0 /\ E.t > from + PromptBound THEN {V("C09_Prompt", <<E.ep, E.op, E.t - from, lastInj.kind>>)} ELSE {})
           \cup (IF E.op = "read" /\ misc.abortRx[E.ep] /\ ~E.reason THEN {V("C09_AbortCause", <<E.ep, E.op, E.err>>)} ELSE {})
           \cup (IF E.op \in {"read", "accept", "pollread"} /\ lastInj.t >= 0 /\ E.ok THEN {V("C09_ErrorAfterTeardown", <<E.ep, E.op>>)} ELSE {})
   /\ l' = l + 1
   /\ UNCHANGED <<scen, cfg, msg, order, reads, ch, hi, pkt, rcvd, skipTo, ackCum, ackGap, arw, outst, lastSack, sackEv, sn, step, newData, rs, acc>>
 TrInject ==
   /\ IsEv("inject")
-  /\ misc' = [misc EXCEPT !.inj = Upd(@, E.ep, IF E.kind = "repoll" /\ E.ep \in DOMAIN @ THEN [@[E.ep] EXCEPT !.t = E.t] ELSE E), !.teardown = TRUE]
+  /\ misc' = [misc EXCEPT !.inj = Upd(@, E.ep, IF E.kind = "repoll" /\ E.ep \in DOMAIN @ THEN @[E.ep] ELSE E), !.teardown = TRUE]
   /\ step' = E
   /\ l' = l + 1
   /\ UNCHANGED <<scen, cfg, msg, order, reads, ch, hi, pkt, rcvd, skipTo, ackCum, ackGap, arw, outst, lastSack, sackEv, sn, newData, rs, acc, viol>>
